@@ -387,6 +387,24 @@ def check(model: Model, run: Run) -> None:
                 if len(buf_ops) != 1:
                     ok = False
                     why = f"{len(buf_ops)} buffer writes on a drain path (exactly one expected)"
+                if not buf_ops:
+                    # a path that only looks: taken only when the caller sets a flag away from its default (`peek=True`), it returns a copy and
+                    # keeps everything - nothing is delivered on it, so nothing can be delivered twice or dropped by it
+                    a__ = drain.node.args
+                    pos__ = a__.posonlyargs + a__.args
+                    dfl__ = {p_.arg: d_ for p_, d_ in zip(pos__[len(pos__) - len(a__.defaults):], a__.defaults)}
+                    dfl__.update({p_.arg: d_ for p_, d_ in zip(a__.kwonlyargs, a__.kw_defaults) if d_ is not None})
+                    for c_txt, v_ in p.conds:
+                        m__ = c_txt.strip("()")
+                        neg__ = m__.startswith("not ")
+                        nm__ = m__[4:].strip("()") if neg__ else m__
+                        nm__ = nm__.split("@")[0]
+                        d__ = dfl__.get(nm__)
+                        if isinstance(d__, ast.Constant) and isinstance(d__.value, bool):
+                            flag_value = (not v_) if neg__ else v_
+                            if flag_value != d__.value:
+                                ok = True
+                                run.note(f"data_to_send: the path under {nm__}={flag_value} returns a copy and keeps the buffer (a look without consuming): not a delivery")
             # the cut value must be the same SSA value: `hi` text contains versions, so equality of text is equality of value
             # and the return must have been computed from the buffer before it was cut
             run.ob("D2-complementary-slices", ok, dict(label, retained=[expand(str(v), defs)[:100] for k, v, s in buf_ops]))
